@@ -497,6 +497,227 @@ def r01_10(ctx: Ctx) -> None:
                                           f"guarded by its presence; BroadcastValue rejects it (`{why}`), so encoding raises for a component without text")
 
 
+def _names(t) -> set[str]:
+    return {x.id for x in ast.walk(t) if isinstance(x, ast.Name)}
+
+
+def _rebound(r, v: str, fn, lp) -> bool:
+    """the occurrence `r` of `v` lies in the body of another loop (or a comprehension) that binds `v` itself"""
+    c, p = r, getattr(r, "_parent", None)
+    while p is not None and c is not fn:
+        if isinstance(p, (ast.For, ast.AsyncFor)) and p is not lp and v in _names(p.target) and any(c is s for s in p.body):
+            return True
+        if isinstance(p, (ast.ListComp, ast.SetComp, ast.GeneratorExp, ast.DictComp)) and any(v in _names(g.target) for g in p.generators):
+            return True
+        c, p = p, getattr(p, "_parent", None)
+    return False
+
+
+def _params(fn) -> list[str]:
+    a = fn.args
+    return [x.arg for x in list(a.posonlyargs) + list(a.args) + list(a.kwonlyargs)]
+
+
+def _emptiness_source(it: ast.AST, fn) -> ast.AST | None:
+    """the sequence whose emptiness makes the loop run zero times: `for … in S`, `enumerate(S)`, `range(len(S))`,
+    the count seen through single-assignment temporaries and constant subscripts of list/tuple displays"""
+    from ..astmatch import resolve
+
+    def count(e):
+        e = resolve(e, fn) if isinstance(e, ast.Name) else e
+        if isinstance(e, ast.Subscript) and isinstance(e.slice, ast.Constant) and isinstance(e.slice.value, int):
+            base = resolve(e.value, fn) if isinstance(e.value, ast.Name) else e.value
+            if isinstance(base, (ast.List, ast.Tuple)) and -len(base.elts) <= e.slice.value < len(base.elts):
+                return count(base.elts[e.slice.value])
+            return None
+        if isinstance(e, ast.Call) and dotted(e.func) == "len" and len(e.args) == 1:
+            return e.args[0]
+        return None
+    if isinstance(it, ast.Call) and dotted(it.func) == "range" and len(it.args) == 1 and not it.keywords:
+        return count(it.args[0])
+    if isinstance(it, ast.Call) and dotted(it.func) in ("enumerate", "list", "tuple", "iter", "reversed", "sorted") and it.args:
+        return _emptiness_source(it.args[0], fn)
+    if isinstance(it, (ast.Name, ast.Attribute)):
+        return it
+    return None
+
+
+def _root(e: ast.AST) -> ast.AST:
+    while isinstance(e, (ast.Attribute, ast.Subscript)):
+        e = e.value
+    return e
+
+
+def _bind_args(call: ast.Call, callee) -> dict[str, ast.AST] | None:
+    """argument expression per parameter name of `callee` (self/cls skipped for attribute calls); None when the call
+    uses * or ** arguments"""
+    ps = _params(callee.node)
+    if callee.cls and ps and ps[0] in ("self", "cls") and not any(dotted(d).endswith("staticmethod") for d in callee.node.decorator_list):
+        ps = ps[1:]
+    if any(isinstance(a, ast.Starred) for a in call.args) or any(k.arg is None for k in call.keywords):
+        return None
+    out: dict[str, ast.AST] = {}
+    for p_, a in zip(ps, call.args):
+        out[p_] = a
+    for k in call.keywords:
+        out[k.arg] = k.value
+    fa = callee.node.args
+    pos = list(fa.posonlyargs) + list(fa.args)
+    for a, d in zip(pos[len(pos) - len(fa.defaults):], fa.defaults):
+        out.setdefault(a.arg, d)
+    for a, d in zip(fa.kwonlyargs, fa.kw_defaults):
+        if d is not None:
+            out.setdefault(a.arg, d)
+    return out
+
+
+_CONST_ATOM = re.compile(r"^(!?)(\w+) (==|!=) (.+)$")
+
+
+def _excluded_by_constants(atoms: set[str], bound: dict[str, ast.AST]) -> str | None:
+    """an atom `param == const` / `param != const` that the call's constant argument falsifies"""
+    for a in atoms:
+        m = _CONST_ATOM.match(a)
+        if not m or m.group(2) not in bound or not isinstance(bound[m.group(2)], ast.Constant):
+            continue
+        try:
+            c = ast.literal_eval(m.group(4))
+        except (ValueError, SyntaxError):
+            continue
+        holds = (bound[m.group(2)].value == c) == (m.group(3) == "==")
+        if m.group(1):
+            holds = not holds
+        if not holds:
+            return a
+    return None
+
+
+def _nonempty_verdict(cg: CallGraph, fi, at: ast.AST, x: ast.AST, depth: int = 3) -> tuple[str, str]:
+    """is the sequence `x` known to be non-empty whenever `at` executes in `fi`?  ('yes' | 'no' | 'unknown', why).
+    'yes' needs a dominating truthiness/length test of `x` here or, when `x` is rooted in a parameter, at every call
+    site; 'no' means the chain of callers ends without such a test and every test of `x` on it is a None test."""
+    from ..astmatch import guard_atoms, guards, resolve
+    import copy
+    fn = fi.node
+    xr = resolve(x, fn) if isinstance(x, ast.Name) else x
+    if isinstance(xr, (ast.List, ast.Tuple)) and xr.elts and not any(isinstance(e, ast.Starred) for e in xr.elts):
+        return "yes", "non-empty display"
+    atoms = guard_atoms(guards(at, fn), fn)
+    forms = {unparse(x), unparse(xr)}
+    about: list[str] = []
+    for xs in forms:
+        if atoms & {xs, f"len({xs}) > 0", f"len({xs}) != 0", f"len({xs}) >= 1", f"0 < len({xs})", f"{xs} != []", f"bool({xs})"}:
+            return "yes", f"`{xs}` tested in {fi.short}"
+        about += [a for a in atoms if xs in a]
+    odd = [a for a in about if not any(a == f"{xs} {op} None" for xs in forms for op in ("is not", "!="))]
+    if odd:
+        return "unknown", f"{fi.short} tests {odd[0]!r}, a form the rule does not interpret"
+    none_only = f" (only a None test: {about[0]})" if about else ""
+    root = _root(xr)
+    if not (isinstance(root, ast.Name) and root.id in _params(fn)):
+        return "unknown", f"{unparse(xr)} in {fi.short} is neither tested nor rooted in a parameter"
+    if root.id in ("self", "cls"):
+        return "no", f"{fi.short}: {unparse(xr)} is not tested for emptiness{none_only}"
+    callers = cg.callers_of(fi.short)
+    if not callers:
+        return "no", f"{fi.short}: {unparse(xr)} is not tested for emptiness{none_only} and {fi.short} has no resolved caller that could"
+    if depth == 0:
+        return "unknown", f"caller chain of {fi.short} deeper than the inlining bound"
+    for cfi, call in callers:
+        bound = _bind_args(call, fi)
+        if bound is None or root.id not in bound:
+            return "unknown", f"argument for {root.id} at {cfi.where(call)} not resolved"
+
+        class Sub(ast.NodeTransformer):
+            def visit_Name(self, n):
+                return copy.deepcopy(bound[root.id]) if n.id == root.id else n
+        x2 = Sub().visit(copy.deepcopy(xr))
+        v, why = _nonempty_verdict(cg, cfi, call, x2, depth - 1)
+        if v != "yes":
+            return v, why + none_only
+    return "yes", f"every caller of {fi.short} tests it"
+
+
+def r01_11(ctx: Ctx, cg: CallGraph) -> None:
+    """R01.11 a loop variable read after its loop is bound: where a `for` target is read after the loop (and is bound
+    nowhere else), the loop must run at least once on every path that reaches the read — decided as a non-emptiness
+    obligation on the iterated parameter at every call site whose constant arguments do not exclude the read
+    (a dominating truthiness/length test; an `is None` test does not exclude the empty sequence, which the component
+    models accept)."""
+    from ..astmatch import guard_atoms, guards
+    pm = ctx.pm
+    scanned = 0
+    for fi in pm.iter_funcs():
+        fn = fi.node
+        # "after the loop" is decided in tree order, not by line numbers (inlined helper bodies keep foreign positions)
+        order: dict[int, int] = {}
+
+        def number(n):
+            if isinstance(n, (ast.expr_context, ast.operator, ast.boolop, ast.unaryop, ast.cmpop)):
+                return  # shared singletons
+            order[id(n)] = len(order)
+            for c in ast.iter_child_nodes(n):
+                number(c)
+        number(fn)
+
+        def last_in(n):
+            return max(order.get(id(x), -1) for x in ast.walk(n))
+        for lp in [x for x in walk_no_nested(fn) if isinstance(x, ast.For)]:
+            scanned += 1
+            for v in sorted(_names(lp.target)):
+                reads = [x for x in ast.walk(fn) if isinstance(x, ast.Name) and x.id == v and isinstance(x.ctx, ast.Load)
+                         and order.get(id(x), -1) > last_in(lp) and not _rebound(x, v, fn, lp)]
+                stores = [x for x in walk_no_nested(fn) if isinstance(x, ast.Name) and x.id == v and isinstance(x.ctx, ast.Store)
+                          and not any(x is t for t in ast.walk(lp.target)) and not _rebound(x, v, fn, lp)]
+                if not reads or stores or v in _params(fn):
+                    continue
+                src = _emptiness_source(lp.iter, fn)
+                if src is None:
+                    if isinstance(lp.iter, ast.Call) and dotted(lp.iter.func) == "range" and all(isinstance(a, ast.Constant) for a in lp.iter.args):
+                        continue
+                    ctx.gap("R01.11", f"{fi.short}: `{v}` is read after `for {unparse(lp.target)} in {unparse(lp.iter)[:60]}` and the iterable's emptiness source is not recognised")
+                    continue
+                for r in reads[:1]:
+                    atoms = guard_atoms(guards(r, fn), fn)
+                    ss = unparse(src)
+                    ctx.instance("R01.11", fi.where(lp), f"{fi.short}: `{v}` read after the loop over {unparse(lp.iter)[:50]} (empty iff {ss} is empty) under {sorted(atoms)[:4]}")
+                    if atoms & {ss, f"len({ss}) > 0", f"len({ss}) != 0", f"len({ss}) >= 1"}:
+                        continue
+                    if not (isinstance(_root(src), ast.Name) and _root(src).id in _params(fn) and _root(src).id not in ("self", "cls")):
+                        ctx.gap("R01.11", f"{fi.short}: emptiness of {ss} is not a caller obligation the rule can follow")
+                        continue
+                    callers = cg.callers_of(fi.short)
+                    if not callers:
+                        ctx.gap("R01.11", f"{fi.short}: no resolved call site to discharge the non-emptiness of {ss}")
+                    for cfi, call in callers:
+                        bound = _bind_args(call, fi)
+                        if bound is None or _root(src).id not in bound:
+                            ctx.gap("R01.11", f"{cfi.short}: arguments of the call to {fi.short} at {cfi.where(call)} not resolved")
+                            continue
+                        ex = _excluded_by_constants(atoms, bound)
+                        if ex is not None:
+                            ctx.instance("R01.11", cfi.where(call), f"{cfi.short} -> {fi.short}: read unreachable for this call ({ex} is false)", nontrivial=False)
+                            continue
+                        import copy
+
+                        class Sub(ast.NodeTransformer):
+                            def visit_Name(self, n):
+                                return copy.deepcopy(bound[_root(src).id]) if n.id == _root(src).id else n
+                        x = Sub().visit(copy.deepcopy(src))
+                        verdict, why = _nonempty_verdict(cg, cfi, call, x)
+                        ctx.instance("R01.11", cfi.where(call), f"{cfi.short} -> {fi.short}: {unparse(x)[:60]} non-empty: {verdict} ({why[:120]})")
+                        if verdict == "no":
+                            ctx.violation("R01.11", f"{cfi.short}->{fi.short}", f"{v} unbound when {unparse(x)} is empty", cfi.where(call),
+                                          f"{cfi.short} calls {fi.short} with {unparse(x)} that may be empty: {why}; the loop `for {unparse(lp.target)} in "
+                                          f"{unparse(lp.iter)[:50]}` then runs zero times and `{v}` is read unbound at {fi.where(r)} (UnboundLocalError "
+                                          f"at encode time for a component whose text is an empty list, which construction accepts)")
+                        elif verdict == "unknown":
+                            ctx.gap("R01.11", why)
+    ctx.extra["r01_11_loops_scanned"] = scanned
+    if scanned < 100:
+        raise AnalysisError(f"R01.11 scanned only {scanned} for-loops (over 100 confirmed in the package)")
+
+
 def check(ctx: Ctx) -> None:
     pm = ctx.pm
     it = make_interp(pm)
@@ -509,12 +730,16 @@ def check(ctx: Ctx) -> None:
         "row control words occur as literals only in functions entered by the abstract run of the row emitter (those the pairing argument covers). R01.3: lexical fold (control word / parameter / text "
         "adjacency) over the document shapes. R01.4: element type of each attribute fed to a model field (keywords, incl. **mappings built from the source's literal tables) is "
         "assignable to that field. R01.5: results of optional-returning functions are tested before None-intolerant "
-        "use on the encode call graph. R01.6: validator table = emitter table (see C19).")
+        "use on the encode call graph. R01.6: validator table = emitter table (see C19). R01.11: every `for` target that is read after its loop "
+        "(tree order, bound nowhere else) is bound on every path: the iterated parameter is tested non-empty (truthiness/length test, not an "
+        "`is None` test) at every call site whose constant arguments do not exclude the read, followed up the resolved call graph (bound 3).")
     ctx.assume("user text contains no unbalanced raw RTF metacharacters (the property's input restriction)")
     ctx.assume("TextContent._convert_special_chars adds only complete \\uc1\\uN* escapes (its body is analysed under C10)")
     ctx.assume("pydantic coerces constructor keywords to the declared field types")
     ctx.assume("R01.10: a component's text, when it is not None, is non-empty (an `is not None` guard counts as presence)")
     ctx.assume("PIL/polars/struct calls behave as documented; image helpers return (None, None) or two ints (checked syntactically)")
+    ctx.undecided("R01.11 decides loop variables only (not names bound in one branch of an if); an emptiness test in a form other than "
+                  "truthiness / len comparison ends in an analysis gap")
     ctx.undecided("absence of every run-time exception; numeric positivity/monotonicity of \\cellx values; zero-column grids whose "
                   "text object is a parameter of the constructing function (R01.10 leaves the presence obligation to the callers)")
     shapes = r01_1(ctx, it)
@@ -545,6 +770,7 @@ def check(ctx: Ctx) -> None:
         ctx.gap("R01.1", f"the shape interpreter met statement kinds outside its subset on an output path ({dropped[0][:120]}); "
                          "their effect on the document is not modelled")
     r01_10(ctx)
+    r01_11(ctx, cg)
     ctx.extra["functions_interpreted"] = len(it.calls_seen)
     ctx.extra["interpreter_gaps"] = sorted({f"{a}:{b}" for a, b, _ in it.gaps})[:20]
     if len(it.calls_seen) < 38:
